@@ -87,7 +87,9 @@ macro_rules! systems {
             "mpmc.capscript.fix" => sys_capscript::Fix,
             "mpmc.capscript.grow" => sys_capscript::Grow,
             "mpmc.bigpayload" => sys_capscript::BigPayload,
+            "handles.clonefrom" => sys_capscript::HandleScript,
             "ds.heapscript" => sys_ds::HeapScript,
+            "ringscript.arr65536" => sys_ds::BigRing,
             "mutex.local" => sys_mutex::Sys<NL>,
             "mutex.std" => sys_mutex::Sys<PL>,
             "sem.local" => sys_sem::Sys<sys_sem::Borrowed<NL>>,
